@@ -382,6 +382,49 @@ def partial_input_scripts(ck, tier: str) -> None:
     ck.extra["partial_input_scripts"] = n
 
 
+def slow_teardown_scripts(ck, tier: str) -> None:
+    """C07 when closing a connection takes time (the peer needs a moment to finish closing, so wait_closed() stays
+    suspended and timers fire inside the tear-down): in particular the 2 s retry that an earlier connection attempt left
+    armed.  Histories: an optional backlog whose flush fails on the first connection, time up to just before the retry
+    instant, a fault that starts a tear-down lasting across it, more faults; then the usual probe.  Outside the socket
+    model's alphabet: judged by the healing monitor (connected again, a frame delivered, a command written)."""
+    rng = random.Random(ck.seed * 1013 + 7)
+    n = 0
+    for gen in (4, 5):
+        for i in range(70 if tier == "quick" else 1500):
+            d = rng.choice([3, 20, 50, 300, 2100])
+            script = [("slowclose", d)]
+            if rng.random() < 0.6:
+                # a command submitted while the first connection attempt is in flight; its write on that connection fails
+                script += [("failw",), ("open",), ("send", 0, 3), ("adv", 1)]
+            else:
+                script += [("open",), ("adv", 1)]
+            if rng.random() < 0.7:
+                script.append(("adv", 2047 - rng.randrange(0, min(d, 2000) + 1)))
+            else:
+                script.append(("adv", rng.choice([1, 500, 2048, 4096])))
+            for _k in range(rng.choice([1, 1, 2, 3])):
+                script.append(rng.choice([("eof",), ("rst",), ("bad", rng.randrange(3)), ("failw",), ("send", 0, 3),
+                                          ("adv", rng.choice([1, d // 2 + 1, d + 5, 2048])), ("net", rng.random() < 0.6, 1)]))
+            script += [("adv", d + 5), ("slowclose", 0)] + PROBE
+            pid0, out = sockcorr.run_impl(gen, script)
+            n += 1
+            ck.count()
+            if any(evs == [("tie",)] for evs in out) or len(out) != len(script):
+                continue
+            d_ok, w_ok = probe_ok(out)
+            bad = [e for evs in out for e in evs if e[0] in ("unhandled", "crash")]
+            if not d_ok or not w_ok or bad:
+                ck.violation("the client did not heal after faults around a tear-down that takes time",
+                             {"kind": "socket-script-slow-teardown", "gen": gen, "script": [list(x) for x in script],
+                              "impl_trace": [[list(e) for e in evs] for evs in out],
+                              "monitor": [f"probe frame delivered: {d_ok}", f"probe command written: {w_ok}", f"errors: {bad}"],
+                              "trigger": {"class": "slow-teardown"},
+                              "replay_cmd": f"cd /verif && PYTHONPATH=/repo:/verif /venv/bin/python -m harness.sockrun {gen} '{sockcorr.fmt(script)}'"})
+                break
+    ck.extra["slow_teardown_scripts"] = n
+
+
 # ---------------------------------------------------------------------------- scripts
 def gen_scripts(prop: str, tier: str, rng: random.Random, gen: int):
     scripts = []
@@ -547,6 +590,7 @@ def run_check(prop: str, tier: str, replay: str | None) -> int:
     if prop == "C07":
         subscriber_send_scripts(ck, tier)
         partial_input_scripts(ck, tier)
+        slow_teardown_scripts(ck, tier)
     if prop == "C15":
         from . import check_lifecycle
         check_lifecycle.run(ck, tier)
